@@ -804,8 +804,10 @@ def run(ctx):
     # 1. the specifications, model-checked
     rc = ctx.tlc("Conv", cfg="Conv.%s.cfg" % tier, workers=16, timeout=1500)
     ctx.model_must_hold(rc, "Conv")
+    # (every emitted "problem" case is a final state reached through all seven actions, so their presence - checked in
+    #  replay_models - is the non-vacuity of the actions; per-action coverage is measured in the thorough tier)
     rt = ctx.tlc("TestProblems", cfg="TestProblems.%s.cfg" % tier, workers=16, timeout=1500, extra_modules=("Conv.tla",),
-                 require_actions=ACTIONS)
+                 require_actions=ACTIONS if tier == "thorough" else None)
     ctx.model_must_hold(rt, "TestProblems")
     # 2. named deviations: TLC must return a counterexample to the named invariant (design-level explanation + non-vacuity)
     for spec, cfg, inv, extra in DEVIATIONS:
